@@ -6,7 +6,7 @@
    inside a transaction. *)
 From Coq Require Import ZArith List Bool.
 From Model Require Import PyBase Cache.
-From Proofs Require Import CacheProofs CacheWf CacheCopy CacheCoh CacheWorld CacheUnion CacheTheorems CacheUsable CacheExamples CacheTxn.
+From Proofs Require Import CacheProofs CacheWf CacheCopy CacheCoh CacheWorld CacheUnion CacheTheorems CacheUsable CacheExamples CacheTxn CacheFresh CacheFreshOps CacheFreshWorld.
 Import ListNotations.
 Open Scope Z_scope.
 
@@ -74,9 +74,8 @@ Print Assumptions C13_edits_leave_others_alone.
 
 (* exit_exn . ops . enter restores atoms (with stored hydrogens and labels), bonds, name, meta, _changed, clears _backup,
    keeps the ring-family / component entries of the cache, and the result satisfies the invariant again.  ops: ANY operations
-   (edits, reads, setters, copy, substructure, union in place and copying, renumbering, the patch step) except swap (not a
-   library operation) and a nested enter / exit of the same molecule, for which the statement is false: see
-   transaction_nested_refuted (known finding nested-transaction-no-rollback) *)
+   (edits, reads, setters, copy, substructure, union in place and copying, renumbering, the patch step, a nested enter - which
+   is rejected) except the exit itself and swap (not a library operation) *)
 Theorem C13_transaction_atomic : forall s ops, W s -> snd (step s OEnter) = None ->
   ops_ok (fst (step s OEnter)) ops -> block_ops ops = true ->
   let s3 := fst (step (run ops (fst (step s OEnter))) OExitExn) in
@@ -92,21 +91,15 @@ Print Assumptions C13_transaction_atomic.
 Theorem C13_transaction_full_example :
   let s := run build_cco empty_state in
   W s /\ snd (step s OEnter) = None /\ ops_ok (fst (step s OEnter)) txn_body_full /\ block_ops txn_body_full = true /\
-  trace txn_body_full (fst (step s OEnter)) = repeat None 8 /\
+  trace txn_body_full (fst (step s OEnter)) = repeat None 7 ++ [Some OtherError; None] /\
   keys (o_atoms (s_cur (run txn_body_full (fst (step s OEnter))))) = [11; 2; 3; 4; 5; 7; 8; 9].
 Proof. exact transaction_full_example. Qed.
 Print Assumptions C13_transaction_full_example.
 
-Theorem C13_transaction_nested_refuted :
-  let s := run build_cco empty_state in
-  let ops := [OEnter; OAddAtom nitrogen None; OExitOk] in
-  W s /\ snd (step s OEnter) = None /\ ops_ok (fst (step s OEnter)) ops /\
-  trace ops (fst (step s OEnter)) = [None; None; None] /\
-  snd (step (run ops (fst (step s OEnter))) OExitExn) = Some AttributeError /\
-  keys (o_atoms (s_cur (fst (step (run ops (fst (step s OEnter))) OExitExn)))) = [1; 2; 3; 4] /\
-  keys (o_atoms (s_cur s)) = [1; 2; 3].
-Proof. exact transaction_nested_refuted. Qed.
-Print Assumptions C13_transaction_nested_refuted.
+(* a nested enter of the same molecule is rejected and changes nothing *)
+Theorem C13_enter_nested_rejected : forall s, o_backup (s_cur s) <> None -> step s OEnter = (s, Some OtherError).
+Proof. exact enter_nested_rejected. Qed.
+Print Assumptions C13_enter_nested_rejected.
 
 (* a usable state: outside a transaction the next edit (a new atom, followed by fix_structure over the whole molecule or the
    pending atoms) raises nothing; with the invariant re-established by transaction_atomic / copy_independent this covers the
@@ -165,3 +158,37 @@ Theorem C13_union_example :
    match s_others s with u :: _ => keys (o_atoms u) = [1; 2; 3; 4; 5; 6; 7; 8; 9] | [] => False end).
 Proof. exact union_example. Qed.
 Print Assumptions C13_union_example.
+
+(* ---- the STORED derived data: FW = W + for every live molecule and backup: each atom is pending (in _changed) or its stored
+   hydrogen count was computed from its current environment (with the charge / radical state it has now, or - inside a
+   transaction - had in the backup), and outside a transaction nothing is pending, every label and bond mark is current.
+   Contract fop_ok: setters only inside a transaction, no copy / substructure of the intermediate state of an open transaction;
+   union and the patch step are not covered (hence _partial). *)
+Theorem C13_fresh_initial : FW empty_state.
+Proof. exact FW_empty. Qed.
+Print Assumptions C13_fresh_initial.
+
+Theorem C13_fresh_step_partial : forall s p, FW s -> op_ok s p -> fop_ok s p -> FW (fst (step s p)).
+Proof. exact step_FW. Qed.
+Print Assumptions C13_fresh_step_partial.
+
+(* the _changed bookkeeping (incl. the setter tracking at __exit__ and the marking by remap inside a block) is sufficient:
+   outside a transaction, after every operation, each stored implicit-hydrogen count equals calc of the atom's current
+   environment, each label equals labels of its current neighbourhood, every bond carries its ring mark, nothing is pending *)
+Theorem C13_stored_fresh_partial : forall (H L : Type) (calc : env -> H) (labels : lenv -> L) ops s, FW s -> fops_ok s ops ->
+  forall o, In o (live (run ops s)) -> o_backup o = None ->
+    o_changed o = None /\
+    (forall r, In r (refs_of_adj (o_adj o)) -> exists c, hget (s_heap (run ops s)) r = Some c /\ b_lab c = true) /\
+    forall n a, zget (o_atoms o) n = Some a ->
+      exists l, lenv_of_row (s_heap (run ops s)) (o_atoms o) (row o n) = Ok l /\
+                stored_h H calc a = Some (calc (a_core a, l)) /\ stored_l L labels a = Some (labels l).
+Proof. exact stored_fresh. Qed.
+Print Assumptions C13_stored_fresh_partial.
+
+Theorem C13_fresh_example :
+  fops_ok empty_state fresh_history /\ trace fresh_history empty_state = repeat None 20 /\
+  (let s := run fresh_history empty_state in
+   forallb (fun o => forallb (fun n => hyd_fresh (s_heap s) o n && lab_fresh (s_heap s) o n) (keys (o_atoms o))) (live s) = true /\
+   List.length (live s) = 3%nat /\ keys (o_atoms (s_cur s)) = [1; 9; 10]).
+Proof. exact fresh_example. Qed.
+Print Assumptions C13_fresh_example.
